@@ -91,12 +91,12 @@ def r4_who_may_assign(ctx, rep, R='C13.R4'):
     for node in ast.walk(fi.node):
         if isinstance(node, ast.Attribute) and isinstance(node.ctx, ast.Store) and \
                 m.resolve_dotted(fi.module, dotted(node)) == 'sys.stdin':
-            par = node
-            guarded = False
-            while getattr(par, '_parent', None) is not None and par._parent is not fi.node:
-                child, par = par, par._parent
-                if isinstance(par, ast.If) and child in par.body and '--resume-layer' in norm(par.test):
-                    guarded = True
+            from .common import guard_literals
+            st = node
+            while not isinstance(st, ast.stmt):
+                st = st._parent
+            guarded = any(pos and '--resume-layer' in norm(e) and isinstance(e, ast.Compare) and
+                          isinstance(e.ops[0], ast.Eq) for e, pos in guard_literals(ctx, fi, st))
             rep.check(guarded, R, 'Runner.configure: sys.stdin replaced only when re-invoked with '
                       '--resume-layer', 'sys.stdin is replaced outside the --resume-layer branch',
                       key='stdin:guard', func=fi.qualname, where=ctx.where(fi, node))
